@@ -40,7 +40,7 @@ func (c *Ctx) pairRule(rule, reader, writer string, skip map[string]bool) (r, w 
 	if skip["@uefi-body"] {
 		rl, wl = normaliseUEFIBody(rl, false), normaliseUEFIBody(wl, true)
 	}
-	rl, wl = collapseUnnamedRuns(rl), collapseUnnamedRuns(wl)
+	rl = collapseUnnamedRuns(rl) // alternative read paths; a writer emits what it emits
 	ok, det := sameLeaves(rl, wl, skip)
 	if !ok {
 		if why := unattributedBytes(rl, wl); why != "" {
@@ -69,7 +69,9 @@ func (c *Ctx) layoutRule(rule string, fn *ssa.Function, isRead bool, filter func
 		c.R.Infof(rule, name(fn), "layout:"+specName, c.Pos(fn.Pos()), "not decided for this shape: the wire sequence cannot be extracted ("+why+")")
 		return
 	}
-	ls = collapseUnnamedRuns(ls)
+	if isRead {
+		ls = collapseUnnamedRuns(ls)
+	}
 	var got []leaf
 	for _, l := range ls {
 		if l.alias && isRead {
@@ -117,7 +119,7 @@ func (c *Ctx) layoutRule(rule string, fn *ssa.Function, isRead bool, filter func
 func unattributedBytes(a, b []leaf) string {
 	for _, ls := range [][]leaf{a, b} {
 		for _, l := range ls {
-			if l.id == "(skipped)" && l.width >= 2 {
+			if l.id == "(unattributed)" || l.id == "(skipped)" && l.width >= 4 {
 				return fmt.Sprintf("a run of %d bytes is packed or unpacked by code the wire extractor does not attribute to fields", l.width)
 			}
 		}
